@@ -34,6 +34,10 @@ pub enum Ev {
 	DropSub(usize),
 	AnsUnsub(usize),
 	Close(usize),
+	/// ONE array message: enough items for subscription i to make it lag, followed by the close notification of the other one
+	LagCloseArray(usize),
+	/// ONE array message closing both subscriptions
+	CloseBothArray,
 	Batch,
 	AnsBatch,
 	Reg,
@@ -112,6 +116,15 @@ impl Ref {
 			Ev::Close(i) if r.subs[*i] == SubSt::Active => {
 				r.subs[*i] = SubSt::Done;
 				r.queued[*i] = 0;
+			}
+			Ev::LagCloseArray(i) if r.subs[*i] == SubSt::Active && r.subs[1 - *i] == SubSt::Active => {
+				r.subs[*i] = SubSt::Ending;
+				r.subs[1 - *i] = SubSt::Done;
+				r.queued = [0; 2];
+			}
+			Ev::CloseBothArray if r.subs[0] == SubSt::Active && r.subs[1] == SubSt::Active => {
+				r.subs = [SubSt::Done; 2];
+				r.queued = [0; 2];
 			}
 			Ev::Batch if r.batch == CallSt::None => r.batch = CallSt::Pending,
 			Ev::AnsBatch if r.batch == CallSt::Pending => r.batch = CallSt::Done,
@@ -289,6 +302,15 @@ impl Scenario for HistScenario {
 							None => problems.lock().unwrap().push(format!("no-unsubscribe-request:sub{i}")),
 						},
 						Ev::Close(i) => deliver(json!({"jsonrpc":"2.0","method":"n","params":{"subscription": sub_id(i), "error": "bye"}})),
+						Ev::LagCloseArray(i) => {
+							let mut a: Vec<Value> = (0..=CAP).map(|_| json!({"jsonrpc":"2.0","method":"n","params":{"subscription": sub_id(i), "result": 1}})).collect();
+							a.push(json!({"jsonrpc":"2.0","method":"n","params":{"subscription": sub_id(1 - i), "error": "bye"}}));
+							deliver(Value::Array(a));
+						}
+						Ev::CloseBothArray => deliver(json!([
+							{"jsonrpc":"2.0","method":"n","params":{"subscription": sub_id(0), "error": "bye"}},
+							{"jsonrpc":"2.0","method":"n","params":{"subscription": sub_id(1), "error": "bye"}}
+						])),
 						Ev::Batch => {
 							let client = client.clone();
 							tokio::spawn(async move {
@@ -356,9 +378,9 @@ impl Scenario for HistScenario {
 }
 
 fn menu() -> Vec<Ev> {
-	let mut m = vec![Ev::Call, Ev::AnsCallOk, Ev::AnsCallErr, Ev::Batch, Ev::AnsBatch, Ev::Reg, Ev::Unreg, Ev::DropHandler, Ev::MethodNotif, Ev::AnsSubDup, Ev::StaleCall, Ev::StaleSub];
+	let mut m = vec![Ev::Call, Ev::AnsCallOk, Ev::AnsCallErr, Ev::Batch, Ev::AnsBatch, Ev::Reg, Ev::Unreg, Ev::DropHandler, Ev::MethodNotif, Ev::AnsSubDup, Ev::CloseBothArray, Ev::StaleCall, Ev::StaleSub];
 	for i in 0..2 {
-		m.extend([Ev::Sub(i), Ev::AbandonSub(i), Ev::AnsSubOk(i), Ev::AnsSubErr(i), Ev::AnsSubMalformed(i), Ev::Notif(i), Ev::Lag(i), Ev::Unsub(i), Ev::DropSub(i), Ev::AnsUnsub(i), Ev::Close(i)]);
+		m.extend([Ev::Sub(i), Ev::AbandonSub(i), Ev::AnsSubOk(i), Ev::AnsSubErr(i), Ev::AnsSubMalformed(i), Ev::Notif(i), Ev::Lag(i), Ev::Unsub(i), Ev::DropSub(i), Ev::AnsUnsub(i), Ev::Close(i), Ev::LagCloseArray(i)]);
 	}
 	m
 }
@@ -481,6 +503,8 @@ fn leak_path(hist: &[Ev]) -> String {
 			Ev::DropSub(_) => "drop",
 			Ev::Lag(_) => "lag",
 			Ev::Close(_) => "server-close",
+			Ev::LagCloseArray(_) => "lag-then-close-in-one-array",
+			Ev::CloseBothArray => "two-closes-in-one-array",
 			Ev::AnsSubErr(_) => "refused",
 			Ev::AnsSubMalformed(_) => "malformed-id",
 			Ev::AnsSubDup => "duplicate-id",
